@@ -160,21 +160,21 @@ func (g *cgen) build() {
 				ext = " extends I0"
 			}
 			c := ""
-			if g.maybe("class-const", 3) {
+			if g.maybe("static-member", 3) {
 				c = fmt.Sprintf(" const IC%d = %d;", i, r.Intn(20))
 			}
 			fmt.Fprintf(&g.decls, "interface I%d%s {%s function describe(); }\n", i, ext, c)
 		}
 	}
-	hasExc := g.maybe("exception-subclass", 2)
+	hasExc := r.Intn(2) == 0
 	if hasExc {
 		g.feats["exceptions"] = true
 		body := ""
-		if r.Intn(2) == 0 {
+		if r.Intn(2) == 0 || !g.use("inherited-ctor") {
 			body = " private $tag; function __construct($m, $tag = 'T') { parent::__construct($m); $this->tag = $tag; } function tag() { return $this->tag; } "
 		}
 		fmt.Fprintf(&g.decls, "class AppEx extends \\Exception {%s}\n", body)
-		if r.Intn(2) == 0 {
+		if r.Intn(2) == 0 && g.use("inherited-ctor") {
 			g.decls.WriteString("class SubEx extends AppEx {}\n")
 		}
 	}
@@ -185,7 +185,7 @@ func (g *cgen) build() {
 			c.parent = g.cls[r.Intn(i)]
 			g.feats["inherit"] = true
 		}
-		if i == 0 && g.maybe("abstract-class", 3) {
+		if i == 0 && r.Intn(3) == 0 {
 			c.abstract = true
 		}
 		for k := 0; k < nIface; k++ {
@@ -214,7 +214,7 @@ func (g *cgen) emitClass(c *cclass, hasExc bool) {
 	}
 	fmt.Fprintf(w, "%s {\n", head)
 	// constants
-	if g.maybe("class-const", 2) {
+	if g.maybe("static-member", 2) {
 		for k := 0; k < 1+r.Intn(2); k++ {
 			cn := fmt.Sprintf("K%s_%d", c.name, k)
 			val := fmt.Sprint(r.Intn(30))
@@ -239,12 +239,12 @@ func (g *cgen) emitClass(c *cclass, hasExc bool) {
 		fmt.Fprintf(w, "  %s %s$%s = %s;\n", p.vis, typ, p.name, g.lit(p.kind))
 		c.props = append(c.props, p)
 	}
-	if g.maybe("static-prop", 2) {
+	if g.maybe("static-member", 2) {
 		c.hasSCnt = true
 		fmt.Fprintf(w, "  public static $cnt%s = %d;\n  protected static $names%s = [];\n", c.name, r.Intn(5), c.name)
 	}
 	// constructor
-	ownCtor := c.parent == nil || r.Intn(2) == 0
+	ownCtor := c.parent == nil || r.Intn(2) == 0 || !g.use("inherited-ctor")
 	if ownCtor {
 		c.ctorArgs = r.Intn(3)
 		var ps []string
